@@ -247,10 +247,28 @@ def service_shard(task):
             r.final_measurement.metrics.add(metric_id=nm_, value=v)
           if st == 'infeasible':
             r.trial_infeasible = True
-            r.infeasible_reason = 'bad'
+            r.infeasible_reason = 'bad' if len(b.ds.list_trials(svc.study_name('s'))) % 2 else ''      # a reason is optional
           b.servicer.CompleteTrial(r)
         resp = b.servicer.ListOptimalTrials(svc.vs.ListOptimalTrialsRequest(parent=svc.study_name('s')))
         got = sorted(int(t.id) - 1 for t in resp.optimal_trials)
+        # the same question asked by a client that has read the trials (through the converters) into its own in-RAM study
+        if not any(h[0] == 'nan' for h in hist):
+          try:
+            from vizier import pythia
+            from vizier._src.pyvizier.oss import proto_converters as pc_
+            from vizier.service import pyvizier as svz_
+            lst = b.servicer.ListTrials(svc.vs.ListTrialsRequest(parent=svc.study_name('s'))).trials
+            prob_ = svz_.StudyConfig.from_proto(b.servicer.GetStudy(svc.vs.GetStudyRequest(name=svc.study_name('s'))).study_spec).to_problem()
+            sup = pythia.InRamPolicySupporter(prob_)
+            sup.AddTrials(pc_.TrialConverter.from_protos(lst))
+            got2 = sorted(t.id - 1 for t in sup.GetBestTrials(count=None))
+          except Exception as e:  # pylint: disable=broad-except
+            got2 = 'raises %r' % e
+          if got2 != want and not (isinstance(got2, str) and not [h for h in hist if h[0] == 'ok']):
+            sig = 'C11|best-trials-of-read-back-study|%s' % ('reports:' + '+'.join(sorted({hist[i][0] for i in got2 if i not in want})) if not isinstance(got2, str) and [i for i in got2 if i not in want] else 'differs')
+            if sig not in vios:
+              vios[sig] = {'sig': sig, 'desc': '[%s] goals=%s trials=%s: GetBestTrials over the trials read back from the service returns %s, definition gives %s' % (b.kind, goals, hist, got2, [i + 1 for i in want] if False else want),
+                           'case': {'part': 'S', 'goals': goals, 'hist': [list(h) for h in hist], 'backend': b.kind}}
         if got != want:
           extra = [i for i in got if i not in want]
           cls = 'reports:' + '+'.join(sorted({hist[i][0] for i in extra})) if extra else 'omits-optimal'
